@@ -170,7 +170,10 @@ def runStep (a : Acc) (st : Json) : Acc :=
       (⟨s1, a.sys.refs⟩, resStr r, [])
     else if op == "reconcile" then
       let env : Env := ⟨rejects, fault, nats st "vorder", nats st "eorder", List.range listed.length, ran, sortRefsDesc⟩
-      let (sys1, r) := reconcileRevV ⟨s0, a.sys.refs⟩ ⟨p, control, objs⟩ env ⟨vi, tp, ri, staleRefs⟩
+      -- "ds": spec.desiredState as the string it is (absent: Active / Inactive according to "control")
+      let (sys1, r) := match optStr st "ds" with
+        | some ds => reconcileState ⟨s0, a.sys.refs⟩ p objs ds env ⟨vi, tp, ri, staleRefs⟩
+        | none => reconcileRevV ⟨s0, a.sys.refs⟩ ⟨p, control, objs⟩ env ⟨vi, tp, ri, staleRefs⟩
       (sys1, resStr r, (sys1.refs p.uid).map refObsJson)
     else
       let (s1, r) := establishV rejects fault vi tp p control s0 objs (nats st "vorder") (nats st "eorder")
@@ -190,7 +193,10 @@ def runStep (a : Acc) (st : Json) : Acc :=
     ("store", Json.arr (store.map objJson).toArray),
     ("log", Json.arr (log.map logJson).toArray)]
   -- model-side monitor: all-or-nothing evaluated on the model's own run
-  let establishing := op == "establish" || (op == "reconcile" && staleRefs.isNone && (control || listed.isEmpty))
+  let deactivating := match optStr st "ds" with
+    | some ds => ds == inactiveState
+    | none => !control
+  let establishing := op == "establish" || (op == "reconcile" && staleRefs.isNone && (!deactivating || listed.isEmpty))
   -- (decided from the pre-state: only meaningful when the validate phase sees that state)
   let vquiet := (arr st "stale").isEmpty && tpj.all fun j => atOf j == ""
   let blocked := establishing && vquiet && objs.any fun d =>
